@@ -105,6 +105,11 @@ def run_extractor(specs, tags, view, out_rs, out_map, lenient=False):
     cmd = [EXTRACTOR, "--repo", REPO, "--tags", ",".join(tags), "--view", view, "--out", out_rs, "--map", out_map]
     if lenient:
         cmd.append("--lenient")
+    # E0: names each function bound when its contract was written (renamed locals are followed)
+    if specs:
+        names = os.path.join(os.path.dirname(specs[0]), "pinned_names.json")
+        if os.path.exists(names):
+            cmd += ["--names", names]
     for s in specs:
         cmd += ["--spec", s]
     r = sh(cmd)
